@@ -111,6 +111,17 @@ class Sched:
 
     # -- called by the running thread ----------------------------------------------------
     def point(self, tid, what="line"):
+        if getattr(_local, "in_point", False):
+            # the scheduler's own bookkeeping (the harness's state function reads properties of
+            # the machine, which live in traced files) must not open nested scheduling points
+            return
+        _local.in_point = True
+        try:
+            self._point(tid, what)
+        finally:
+            _local.in_point = False
+
+    def _point(self, tid, what):
         self.npoints += 1
         if self.npoints > self.max_points:
             raise Deadlock("point budget exhausted (livelock?)")
